@@ -714,8 +714,15 @@ class VectorMixedProduct(Expr):  # type: ignore[misc]
         if is_vector_expr(symbol):
             return SymDerivative(self, symbol, evaluate=False)
 
+        # NOTE: `VectorDot(a, VectorCross(b, c))` evaluates back to this mixed product, so apply the
+        # product rule directly
         a, b, c = self.args
-        return VectorDot(a, VectorCross(b, c)).diff(symbol)
+
+        derived_a = VectorMixedProduct(a.diff(symbol), b, c)
+        derived_b = VectorMixedProduct(a, b.diff(symbol), c)
+        derived_c = VectorMixedProduct(a, b, c.diff(symbol))
+
+        return derived_a + derived_b + derived_c  # type: ignore[no-any-return]
 
 
 class AppliedVectorFunction(sym_fn.Application, VectorExpr):  # type: ignore[misc]
